@@ -52,6 +52,7 @@ import (
 	"runtime"
 	"slices"
 	"strings"
+	"sync"
 	_ "unsafe"
 
 	"golang.org/x/tools/go/ssa"
@@ -78,6 +79,16 @@ const (
 type methodSet map[string]*ssa.Function
 
 // State shared between all interpreted goroutines.
+var deniedLog = os.Getenv("GOSYM_DENIED_LOG") != ""
+var deniedSeen sync.Map
+
+// DeniedSeen lists globals of un-initialised packages that were read (diagnostic mode only).
+func DeniedSeen() []string {
+	var out []string
+	deniedSeen.Range(func(k, _ interface{}) bool { out = append(out, k.(string)); return true })
+	return out
+}
+
 type interpreter struct {
 	osArgs             []value                // the value of os.Args
 	prog               *ssa.Program           // the SSA program
@@ -90,6 +101,7 @@ type interpreter struct {
 	inited             map[*ssa.Package]bool
 	depth              int
 	panicOrigin        []string
+	deniedInit         map[*ssa.Package]bool    // packages whose initialiser was skipped
 	mainpkg            *ssa.Package             // the harness package (entry function's package)
 	stubs              map[string]*ssa.Function // verifStub_<name> functions of the harness package
 	stubMemo           map[*ssa.Function]*ssa.Function
@@ -142,6 +154,13 @@ func (fr *frame) get(key ssa.Value) value {
 		if r, ok := fr.i.globals[key]; ok {
 			if key.Pkg != nil && !fr.i.inited[key.Pkg] {
 				fr.i.ensureInit(key.Pkg, key)
+			} else if key.Pkg != nil && fr.i.deniedInit[key.Pkg] && !benignGlobal(key.Pkg.Pkg.Path(), key.Name()) {
+				// the package's initialiser was skipped: its globals are not what the real program sees
+				if deniedLog {
+					deniedSeen.LoadOrStore(key.Pkg.Pkg.Path()+"."+key.Name(), true)
+					return r
+				}
+				panic(unmodelled{"global of un-initialised package: " + key.Pkg.Pkg.Path() + "." + key.Name()})
 			}
 			return r
 		}
